@@ -118,6 +118,10 @@ def run_unit(unit, rng, ctx):
     walk = np.cumsum(rng.normal(scale=0.03, size=(T, 1, 3)) * (np.arange(T) > 0)[:, None, None], axis=0)
     cent = centres0[None, :, :] + walk  # all clusters drift together: their separation is preserved
     lens = bond * rng.uniform(0.95, 1.05, size=(n_cl, 4))
+    # bond lengths may vibrate in time (+-12 %): un-normalised vectors then carry a length weighting
+    breathing = bool(rng.integers(2))
+    breath = 1.0 + (0.12 * np.sin(rng.uniform(0, 6.28, size=(1, n_cl, 4)) + np.arange(T)[:, None, None] * rng.uniform(0.2, 1.5, size=(1, n_cl, 4))) if breathing else np.zeros((T, n_cl, 4)))
+    breath[0] = 1.0
     mode = str(rng.choice(['random', 'smooth', 'static']))
     sat = np.empty((T, n_cl, 4, 3))
     truth = np.empty((T, n_cl, 4, 3))
@@ -132,7 +136,7 @@ def run_unit(unit, rng, ctx):
                 th = rng.normal(scale=0.15)
                 K = np.array([[0, -ax[2], ax[1]], [ax[2], 0, -ax[0]], [-ax[1], ax[0], 0]])
                 R = R @ (np.eye(3) + np.sin(th) * K + (1 - np.cos(th)) * K @ K)
-            vec = (TETRA * lens[c][:, None]) @ R.T
+            vec = (TETRA * (lens[c] * breath[t, c])[:, None]) @ R.T
             truth[t, c] = vec
             sat[t, c] = cent[t, c][None, :] + vec @ inv
     n_spec = int(rng.integers(0, 3))
@@ -260,4 +264,5 @@ def run_unit(unit, rng, ctx):
     ctx.count('bond_frames_crossing_a_face', crossing)
     ctx.count(f'lattice:{kind}')
     ctx.count(f'rotation_mode:{mode}')
+    ctx.count('cases_with_vibrating_bond_lengths', breathing)
     ctx.case(signature(m, coords), crossing > 0 and n_cl >= 2, sample={'lattice': kind, 'rotated': rot, 'clusters': n_cl, 'T': T, 'bond': bond, 'centre': c_name, 'satellite': s_name, 'rotation': mode, 'bond_frames_crossing_a_face': crossing, 'atom_order': [a[0] for a in atoms]})
